@@ -17,14 +17,19 @@ import (
 )
 
 type c11Replay struct {
-	w     *c11World
-	reqs  map[string]*c11RunReq
-	specs map[int]string // server generation -> yaml, built at srvBuild
-	upd   *c11UpdGate
-	updCh chan string // "returned" when the real update call has returned
-	kept  bool        // entity returned by the last Apply is the previous one
-	pend  string      // yaml of the pipeline version about to be applied
-	nreq  int
+	w        *c11World
+	reqs     map[string]*c11RunReq
+	specs    map[int]string // server generation -> yaml, built at srvBuild
+	upd      *c11UpdGate
+	updCh    chan string // "returned" when the real update call has returned
+	kept     bool        // entity returned by the last Apply is the previous one
+	pend     string      // yaml of the pipeline version about to be applied
+	nreq     int
+	beh      []vx.M // the behaviour being replayed and the index of the current step
+	si       int
+	updRet   bool // the real update call has returned
+	updPanic bool
+	judged   int // class "x" / "f" requests whose outcome was compared with the configuration of the held generation
 }
 
 type c11RunReq struct {
@@ -55,6 +60,7 @@ func (rp *c11Replay) waitUpd() string {
 	case p := <-rp.upd.ev:
 		return p
 	case p := <-rp.updCh:
+		rp.updRet = true
 		return p
 	case <-time.After(c11Wait):
 		return "stuck"
@@ -73,7 +79,7 @@ func (rp *c11Replay) launch(rr *c11RunReq) {
 			close(rr.done)
 		}()
 		if rr.tg == "srv" {
-			rr.inst.serveHTTP(rr.rec, c11NewHTTPRequest(rr.r.id, rr.ip))
+			rr.inst.serveHTTP(rr.rec, c11NewHTTPRequestC(rr.r.id, rr.ip, rr.r.cl))
 			rr.r.status = rr.rec.Code
 		} else {
 			rr.r.status = rp.w.c11Direct(rr.r, rr.tg)
@@ -95,6 +101,7 @@ func (rp *c11Replay) step(st vx.M) string {
 		rp.nreq++
 		id := fmt.Sprintf("%s-%d", vx.Str(st["r"]), rp.nreq)
 		rr := &c11RunReq{r: c11NewReq(id, true), tg: vx.Str(st["tg"]), ip: vx.Str(st["ip"]), rec: httptest.NewRecorder()}
+		rr.r.cl = vx.Str(st["cl"])
 		rp.reqs[vx.Str(st["r"])] = rr
 		if rr.tg != "srv" { // a direct request starts at GetHandler: run it up to the mapper gate
 			c11Cur.Store(rr.r)
@@ -139,8 +146,9 @@ func (rp *c11Replay) step(st vx.M) string {
 				p, rr.r.status, rr.r.panicV, rr.r.site)
 		}
 		o := rr.r.snapshot()[0]
-		if o.Pipe != vx.Str(st["p"]) || o.Value != vx.Int(st["ver"]) {
-			return fmt.Sprintf("request entered %s version %d, model says %s version %d", o.Pipe, o.Value, vx.Str(st["p"]), vx.Int(st["ver"]))
+		if o.Pipe != vx.Str(st["p"]) || o.Value != vx.Int(st["fv"]) {
+			return fmt.Sprintf("request entered %s filters v%d, model says %s generation %d (filters v%d)", o.Pipe, o.Value, vx.Str(st["p"]),
+				vx.Int(st["ver"]), vx.Int(st["fv"]))
 		}
 		if rr.tg == "srv" {
 			if g := c11GenOfPath(o.Path); g != vx.Int(st["rv"]) || o.XFF != vx.Bool(st["xf"]) {
@@ -161,6 +169,39 @@ func (rp *c11Replay) step(st vx.M) string {
 		rp.release(rr)
 		p := rp.waitReq(rr)
 		failed := p == "finished" && (rr.r.panicV != "" || rr.r.status != 200)
+		// the configuration of the generation the request holds: the limit of the URL rule for class "x" ...
+		if res := vx.Str(st["res"]); rr.r.cl == "x" && vx.Str(st["k"]) == "rl" && rr.r.panicV == "" && (res == "limited" || res == "pass") {
+			limited := p == "finished" && rr.r.status == 429
+			switch {
+			case limited == (res == "limited") && (limited || p == next):
+				rp.judged++
+				return ""
+			case (limited || p == next) && vx.Bool(st["closed"]):
+				// the request holds a closed generation: what its limiter does by now is not stated by C11, and the
+				// real limiter and the model's may be out of step from here on
+				return "unjudged"
+			case p == next:
+				return fmt.Sprintf("configured: a request beyond the limit of its URL rule (1 permit per hour) passed the RateLimiter of generation %d "+
+					"(filters v%d) of the pipeline, which is not closed; model says it is limited", vx.Int(st["ver"]), vx.Int(st["fv"]))
+			case limited:
+				return fmt.Sprintf("harness: generation %d limited a request for which the model still has a permit", vx.Int(st["ver"]))
+			}
+		}
+		// ... and the retry policy for class "f", whose backend call fails
+		if vx.Str(st["res"]) == "bfail" && a != "enter" && rr.r.panicV == "" {
+			want := int64(vx.Int(st["pol"]) + 1)
+			calls := atomic.LoadInt64(&rr.r.calls)
+			switch {
+			case p != "finished" || rr.r.status != 503:
+				return fmt.Sprintf("status: a request whose backend call fails is at %q with status %d after the Proxy of generation %d, expected the backend's 503",
+					p, rr.r.status, vx.Int(st["ver"]))
+			case calls != want:
+				return fmt.Sprintf("configured: the Proxy of generation %d of the pipeline (filters v%d, resilience v%d: retry maxAttempts %d) made %d attempts "+
+					"for a request whose backend call fails", vx.Int(st["ver"]), vx.Int(st["fv"]), vx.Int(st["pv"]), want, calls)
+			}
+			rp.judged++
+			return ""
+		}
 		if !vx.Bool(st["ok"]) {
 			// the implementation-shaped layer says this step *may* fail (observed Inherit/Close modes): a real
 			// failure is reported through its fail record; if the real request survives, it is left to finish
@@ -184,8 +225,9 @@ func (rp *c11Replay) step(st vx.M) string {
 		}
 		if a != "enter" {
 			obs := rr.r.snapshot()
-			if o := obs[len(obs)-1]; o.Value != vx.Int(st["ver"]) {
-				return fmt.Sprintf("mixed: marker %d shows pipeline version %d, the request holds version %d", o.Pos, o.Value, vx.Int(st["ver"]))
+			if o := obs[len(obs)-1]; o.Value != vx.Int(st["fv"]) {
+				return fmt.Sprintf("mixed: marker %d shows filters v%d, the request holds generation %d (filters v%d)", o.Pos, o.Value,
+					vx.Int(st["ver"]), vx.Int(st["fv"]))
 			}
 		}
 	case "done":
@@ -204,6 +246,10 @@ func (rp *c11Replay) step(st vx.M) string {
 			return fmt.Sprintf("status: request ended with status %d panic %q, model says 503", rr.r.status, rr.r.panicV)
 		case want == "403" && rr.r.status != 403:
 			return fmt.Sprintf("mixed: request ended with status %d, model says 403", rr.r.status)
+		case want == "429" && (rr.r.status != 429 || rr.r.panicV != ""):
+			return fmt.Sprintf("status: request ended with status %d panic %q, model says 429 (limited)", rr.r.status, rr.r.panicV)
+		case want == "bfail" && (rr.r.status != 503 || rr.r.panicV != ""):
+			return fmt.Sprintf("status: request ended with status %d panic %q, model says 503 (the backend's failure)", rr.r.status, rr.r.panicV)
 		}
 		c11Reqs.Delete(rr.r.id)
 		delete(rp.reqs, vx.Str(st["r"]))
@@ -215,8 +261,8 @@ func (rp *c11Replay) step(st vx.M) string {
 			return fmt.Sprintf("visibility: after reload m.inst holds rules v%d / options v%d, model says v%d / v%d", rv, ov, vx.Int(st["rv"]), vx.Int(st["ov"]))
 		}
 	case "pipBegin", "createInit":
-		p, ver := vx.Str(st["p"]), vx.Int(st["ver"])
-		rp.pend = w.c11PipelineYAML(p, ver)
+		p := vx.Str(st["p"])
+		rp.pend = w.c11PipelineYAML2(p, vx.Int(st["fv"]), vx.Int(st["pv"]))
 		if a == "createInit" { // CreatePipeline: Init (stopped at the end of the last filter's Init) ; Store
 			return rp.startUpdate(p, "inited", func() {
 				_, err := w.tc.CreatePipelineForSpec(c11Namespace, c11MustSpec(rp.pend))
@@ -231,18 +277,37 @@ func (rp *c11Replay) step(st vx.M) string {
 		}
 		p := vx.Str(st["p"])
 		prev, _ := w.tc.GetPipeline(c11Namespace, p)
-		return rp.startUpdate(p, "inherited", func() {
+		bad := rp.startUpdate(p, "inherited", func() {
 			e, err := w.tc.ApplyPipelineForSpec(c11Namespace, c11MustSpec(rp.pend))
 			if err != nil {
 				panic(err)
 			}
 			rp.kept = e == prev
 		})
+		if bad != "" && rp.updRet && !rp.updPanic {
+			// the update returned without calling Inherit on the last filter (nothing obliges an implementation to call it
+			// on a filter whose spec is unchanged): the harness could not stop it.  If the schedule has no request step
+			// before Close(prev);Store anyway, the replay goes on with the update applied as a whole; otherwise the
+			// schedule cannot be replayed on this implementation.
+			for j := rp.si + 1; j < len(rp.beh); j++ {
+				switch vx.Str(rp.beh[j]["a"]) {
+				case "pipInherit":
+					continue
+				case "pipClose":
+					return ""
+				}
+				break
+			}
+			return "ungated"
+		}
+		return bad
 	case "pipClose", "createStore":
 		// release the updater: Close(prev) ; Store happen, the call returns
-		rp.upd.rel <- struct{}{}
-		if p := rp.waitUpd(); p != "returned" {
-			return fmt.Sprintf("update did not return: %q", p)
+		if !rp.updRet {
+			rp.upd.rel <- struct{}{}
+			if p := rp.waitUpd(); p != "returned" {
+				return fmt.Sprintf("update did not return: %q", p)
+			}
 		}
 		c11Upd.Store((*c11UpdGate)(nil))
 		if a == "pipClose" {
@@ -253,19 +318,20 @@ func (rp *c11Replay) step(st vx.M) string {
 		}
 		fallthrough
 	case "pipStore":
-		if ver, _ := w.c11VerOfEntity(vx.Str(st["p"])); ver != vx.Int(st["ver"]) {
-			return fmt.Sprintf("stored: namespace holds version %d of %s, model says %d", ver, vx.Str(st["p"]), vx.Int(st["ver"]))
+		if fv, pv, _ := w.c11GenOfEntity(vx.Str(st["p"])); fv != vx.Int(st["fv"]) || pv != vx.Int(st["pv"]) {
+			return fmt.Sprintf("stored: namespace holds filters v%d / resilience v%d of %s, model says v%d / v%d", fv, pv, vx.Str(st["p"]),
+				vx.Int(st["fv"]), vx.Int(st["pv"]))
 		}
 	case "same":
 		p := vx.Str(st["p"])
-		ver0, e0 := w.c11VerOfEntity(p)
+		fv0, pv0, e0 := w.c11GenOfEntity(p)
 		n0 := atomic.LoadInt64(&c11Inherits)
-		e1, err := w.tc.ApplyPipelineForSpec(c11Namespace, c11MustSpec(w.c11PipelineYAML(p, ver0)))
+		e1, err := w.tc.ApplyPipelineForSpec(c11Namespace, c11MustSpec(w.c11PipelineYAML2(p, fv0, pv0)))
 		if err != nil {
 			return "apply of an unchanged spec failed: " + err.Error()
 		}
-		if ver0 != vx.Int(st["ver"]) {
-			return fmt.Sprintf("stored: namespace holds version %d of %s, model says %d", ver0, p, vx.Int(st["ver"]))
+		if fv0 != vx.Int(st["fv"]) || pv0 != vx.Int(st["pv"]) {
+			return fmt.Sprintf("stored: namespace holds filters v%d / resilience v%d of %s, model says v%d / v%d", fv0, pv0, p, vx.Int(st["fv"]), vx.Int(st["pv"]))
 		}
 		_, e2 := w.c11VerOfEntity(p)
 		if e1 != e0 || e2 != e0 || atomic.LoadInt64(&c11Inherits) != n0 {
@@ -300,12 +366,13 @@ func (rp *c11Replay) step(st vx.M) string {
 func (rp *c11Replay) startUpdate(pipe, want string, fn func()) string {
 	rp.upd = &c11UpdGate{pipe: pipe, ev: make(chan string, 4), rel: make(chan struct{}, 4)}
 	rp.updCh = make(chan string, 2)
-	rp.kept = false
+	rp.kept, rp.updRet, rp.updPanic = false, false, false
 	c11Upd.Store(rp.upd)
 	ch := rp.updCh
 	go func() {
 		defer func() {
 			if e := recover(); e != nil {
+				rp.updPanic = true
 				ch <- "panic: " + fmt.Sprint(e)
 				return
 			}
@@ -324,9 +391,11 @@ func (rp *c11Replay) finish() {
 	if g, _ := c11Upd.Load().(*c11UpdGate); g != nil {
 		c11Upd.Store((*c11UpdGate)(nil))
 		g.rel <- struct{}{}
-		select {
-		case <-rp.updCh:
-		case <-time.After(c11Wait):
+		if !rp.updRet {
+			select {
+			case <-rp.updCh:
+			case <-time.After(c11Wait):
+			}
 		}
 	}
 	for _, rr := range rp.reqs {
@@ -343,20 +412,56 @@ func (rp *c11Replay) finish() {
 	rp.w.close()
 }
 
+// c11Baseline: what the replay reads the configuration of a generation from must hold on a first
+// generation that no update has touched: the second POST is limited (429), a failing backend call is
+// made maxAttempts = pv + 1 = 2 times and ends with the backend's 503.  Otherwise the harness cannot judge.
+func c11Baseline() string {
+	c11Upd.Store((*c11UpdGate)(nil))
+	c11Cur.Store((*c11Req)(nil))
+	w := c11NewWorld(true)
+	defer w.close()
+	do := func(id, cl string) (int, int64) {
+		r := c11NewReq(id, false)
+		r.cl = cl
+		defer c11Reqs.Delete(id)
+		st := w.c11Direct(r, "pa")
+		return st, atomic.LoadInt64(&r.calls)
+	}
+	if st, _ := do("base-x1", "x"); st != 200 {
+		return fmt.Sprintf("baseline: the first POST to a fresh pipeline ended with status %d", st)
+	}
+	if st, _ := do("base-x2", "x"); st != 429 {
+		return fmt.Sprintf("baseline: the second POST to a fresh pipeline (limit 1 per hour) ended with status %d", st)
+	}
+	if st, calls := do("base-f", "f"); st != 503 || calls != 2 {
+		return fmt.Sprintf("baseline: a failing backend call on a fresh pipeline (retry maxAttempts 2) ended with status %d after %d attempts", st, calls)
+	}
+	if st, calls := do("base-n", "n"); st != 200 || calls != 1 {
+		return fmt.Sprintf("baseline: a plain request to a fresh pipeline ended with status %d after %d backend calls", st, calls)
+	}
+	return ""
+}
+
 func TestVerifC11Replay(t *testing.T) {
 	behs := vx.ReadBehaviours(t, "VERIF_IN")
 	out := vx.NewWriter(t, "VERIF_OUT")
 	defer out.Close()
-	steps, mism := 0, 0
+	steps, mism, judged, unjudged, ungated := 0, 0, 0, 0, 0
+	if bad := c11Baseline(); bad != "" {
+		out.Raw(vx.M{"k": "mismatch", "b": -1, "step": 0, "a": "baseline", "at": vx.M{}, "what": "harness: " + bad, "behaviour": []vx.M{}})
+		behs = nil
+	}
 	for bi, beh := range behs {
 		rp := &c11Replay{w: c11NewWorld(true), reqs: map[string]*c11RunReq{}, specs: map[int]string{}}
 		c11Upd.Store((*c11UpdGate)(nil))
 		c11Cur.Store((*c11Req)(nil))
 		for si, st := range beh {
 			steps++
+			rp.beh, rp.si = beh, si
 			bad := rp.step(st)
 			for name, rr := range rp.reqs { // every real failure is reported, predicted by the model or not
-				if rr.fin && !rr.told && (rr.r.panicV != "" || (rr.r.status != 200 && rr.r.status != 403 && !(rr.r.status == 503 && !rr.r.found))) {
+				if rr.fin && !rr.told && (rr.r.panicV != "" || (rr.r.status != 200 && rr.r.status != 403 && !(rr.r.status == 503 && !rr.r.found) &&
+					!(rr.r.cl == "x" && rr.r.status == 429) && !(rr.r.cl == "f" && rr.r.status == 503))) {
 					rr.told = true
 					site, pv := rr.r.site, rr.r.panicV
 					if pv == "" {
@@ -365,6 +470,14 @@ func TestVerifC11Replay(t *testing.T) {
 					out.Raw(vx.M{"k": "fail", "b": bi, "step": si, "r": name, "site": site, "panic": pv, "at": st, "behaviour": beh[:si+1]})
 				}
 			}
+			if bad == "unjudged" {
+				unjudged++
+				break
+			}
+			if bad == "ungated" {
+				ungated++
+				break
+			}
 			if bad != "" {
 				mism++
 				out.Raw(vx.M{"k": "mismatch", "b": bi, "step": si, "a": vx.Str(st["a"]), "at": st, "what": bad, "behaviour": beh[:si+1]})
@@ -372,6 +485,7 @@ func TestVerifC11Replay(t *testing.T) {
 			}
 		}
 		rp.finish()
+		judged += rp.judged
 	}
-	out.Raw(vx.M{"k": "summary", "behaviours": len(behs), "steps": steps, "mismatches": mism})
+	out.Raw(vx.M{"k": "summary", "behaviours": len(behs), "steps": steps, "mismatches": mism, "judged": judged, "unjudged": unjudged, "ungated": ungated})
 }
